@@ -67,5 +67,22 @@ PROPS["C17"] = {
     "assumptions": ["a fresh Packet is used for every Decode call", "error classes compared: header-too-short and body-too-short both count as 'too short'"],
 }
 
+PROPS["C16"] = {
+    "id": "C16",
+    "lean_modules": ["JT.Props.C16"],
+    "functional_ops": ["miss"],
+    "rule": ("file sizes 0..~330000 (boundaries 1,2,255,256,65535,65536,2^20), the file cut at random points into up to 12 (10%: up to 600) pieces of which 0/30/50/80/100% are kept as received chunks, "
+             "in shuffled order (gaps at start/middle/end, adjacent chunks, single-byte gaps, > 255 gaps); `miss` = Package.StatisticalMissSegments(), `rep` = the same list driven through T0x1212.ReplyBody -> P0x9212 and parsed back; "
+             "10%: out-of-quantifier inputs (zero-length, overlapping, out-of-file chunks, offsets near 2^32, inconsistent counter) compared with the model only. non-trivial = class other than out-of-quantifier."),
+    "technique": "Lean 4 proof (sorted fold = exact complement, accounting identity) about a model of StatisticalMissSegments + differential correspondence + brute-force complement oracle",
+    "level_text": ("Machine-checked Lean 4 theorems for every file size < 2^32 and every set of non-empty, pairwise disjoint in-file chunks in any order: a byte is inside a reported range iff no chunk covers it; "
+                   "reported ranges are ascending, non-empty, inside the file and separated by at least one received byte (maximal); the report is empty iff everything was received; received + reported bytes = file size, "
+                   "so after resending the reported ranges the next report is empty. The model (merge sort + uint32 cursor fold) is compared with the exported Go function on every run; the harness also compares the Go result with a brute-force complement "
+                   "and drives it through the 0x1212 -> 0x9212 reply encoding and back."),
+    "level_note": "Trusted: Lean kernel; sampled tie; harness. The theorems assume CurrentSize = sum of chunk lengths (how resends affect the counter is C15). Zero-length chunks are outside the quantifier.",
+    "trusted_base": [KERNEL, AXIOMS, TIE, HARNESS, "modelled rather than verified: Go map iteration as an arbitrary list order with distinct keys; sort.Slice as a merge sort (keys are distinct, so the order is unique); uint32 cursor as Nat mod 2^32"],
+    "assumptions": ["CurrentSize equals the sum of the recorded chunk lengths (no resent chunks; see C15)", "chunks are non-empty, inside the file and pairwise disjoint"],
+}
+
 # properties that are not claimed, with the reason (anything not listed and not in PROPS gets a generic "not built yet")
 NOT_APPLICABLE = {}
